@@ -6,6 +6,7 @@ import tempfile
 
 import corr
 import gen
+import hb
 
 TRUSTED_BASE = [
     "Coq 8.16.1 kernel (coqc); vm_compute used for witnesses; no native_compute",
@@ -1113,6 +1114,12 @@ class C19:
         plain = [gen.strip_controls(l) for l in ctl]
         # limits: programs run with max_branches around their exact need, max_threads, max_permutations
         limit_base = gen.fam_bound_core("quick")[::9][:20]
+        # single-thread programs whose stack alternates schedule and load entries: the entry that exceeds the
+        # limit is a Load entry for some limits, a Schedule entry for others
+        limit_every = [gen.prog_line("c19L0", ["A0"], [["ld 0 sc", "ld 0 sc", "ld 0 sc", "ld 0 sc"]]),
+                       gen.prog_line("c19L1", ["A0"], [["ld 0 sc", "st 0 1 sc", "ld 0 sc", "ld 0 sc", "ld 0 sc", "rmw 0 add 1 sc"]]),
+                       gen.prog_line("c19L2", ["A0"], [["sp 1", "ld 0 sc", "ld 0 sc", "jn 1"], ["st 0 1 sc", "ld 0 sc"]])]
+        limit_base = limit_every + limit_base
         lines = ctl + plain + limit_base
         fam = FamilyRun(ctx, lines, "c19")
         mism, rstats = fam.replay_mismatches()
@@ -1173,6 +1180,9 @@ class C19:
             iters = len(pi["iterations"])
             lim_lines.append(gen.with_cfg(b, mb=need)); lim_expect.append(("ok", iters))
             lim_lines.append(gen.with_cfg(b, mb=need - 1)); lim_expect.append(("branchlimit", None))
+            if j < len(limit_every):
+                for mb_ in range(2, need - 1):      # EVERY limit below the need must be enforced
+                    lim_lines.append(gen.with_cfg(b, mb=mb_)); lim_expect.append(("branchlimit", None))
             nth = len(b.split("|")) - 3
             lim_lines.append(gen.with_cfg(b, mt=nth)); lim_expect.append(("ok", iters))
             if nth > 1:
@@ -1685,7 +1695,25 @@ class C17(OutcomeCheck):
     rnd_family = lambda self, ctx: []
 
     def extra(self, ctx, fam, lines):
-        return tls_trace_check(fam, lines)
+        viol = tls_trace_check(fam, lines)
+        # an access to an initialised lazy static acquires what the initialiser released and releases nothing:
+        # the happens-before oracle (which has no edge for such accesses) is applied to the `tlRc` programs
+        for i, p in sorted(fam.parsed.items()):
+            if not lines[i].startswith("tlRc"):
+                continue
+            run = p["run"] or ""
+            caus = run.startswith("panic") and " causality " in (" " + run + " ")
+            for n_, it in enumerate(p["iterations"]):
+                last = n_ == len(p["iterations"]) - 1
+                rs, rw = hb.analyse_iteration(lines[i], it, caus and last)
+                if rs and not (caus and last):
+                    viol.append({"prog": lines[i], "deviation": "missed-race", "iteration": n_ + 1,
+                                 "detail": "a data race between accesses that only a lazy-static access 'orders' is not reported"})
+                    break
+                if caus and last and not rw:
+                    viol.append({"prog": lines[i], "deviation": "false-race-report", "iteration": n_ + 1})
+                    break
+        return viol
 
 
 
